@@ -117,19 +117,19 @@ Theorem chk_atom_sound sg rho a : Unique sg -> SymAtom sg a -> chk_atom sg rho a
 Proof.
   intros Hu Hs Hc. destruct a as [l a | l a]; cbn [TyAtom SymAtom] in *.
   - destruct a as [a b | t | p args | t ty]; cbn [chk_atom] in Hc; inversion Hs; subst.
-    + destruct (chk_eq_sound sg rho a b Hu Hc) as [T [H1 H2]]; try assumption. apply TI_eq with (T := T); assumption.
-    + destruct (chk_term_sound sg rho Hu t _ Hc) as [T [H1 _]]; [assumption|]. apply TI_def with (T := T). exact H1.
-    + destruct (chk_pred_sound sg rho p args Hu Hc) as [s [H1 H2]]; [assumption|]. apply TI_pred with (s := s); assumption.
+    + destruct (chk_eq_sound sg rho a b Hu Hc) as [T [HA HB]]; try assumption. apply TI_eq with (T := T); assumption.
+    + destruct (chk_term_sound sg rho Hu t _ Hc) as [T [HA _]]; [assumption|]. apply TI_def with (T := T). exact HA.
+    + destruct (chk_pred_sound sg rho p args Hu Hc) as [s [HA HB]]; [assumption|]. apply TI_pred with (s := s); assumption.
     + match goal with H : SymType sg ty |- _ => rename H into Hty end.
       assert (He : type_exp sg ty = Some ty).
       { unfold type_exp, find_type. destruct Hty as [s Hd]. rewrite (declared_find_kind _ _ _ _ Hu Hd). reflexivity. }
-      rewrite He in Hc. destruct (chk_term_sound sg rho Hu t _ Hc) as [T [H1 [_ H3]]]; [assumption|].
-      rewrite <- (H3 ty eq_refl) in H1. constructor; assumption.
+      rewrite He in Hc. destruct (chk_term_sound sg rho Hu t _ Hc) as [T [HA [_ HC]]]; [assumption|].
+      rewrite <- (HC ty eq_refl) in HA. constructor; assumption.
   - destruct a as [a b | [x|] t | p args]; cbn [chk_atom] in Hc; inversion Hs; subst.
-    + destruct (chk_eq_sound sg rho a b Hu Hc) as [T [H1 H2]]; try assumption. apply TT_eq with (T := T); assumption.
-    + destruct (chk_eq_sound sg rho x t Hu Hc) as [T [H1 H2]]; try assumption. apply TT_defx with (T := T); assumption.
-    + destruct (chk_term_sound sg rho Hu t _ Hc) as [T [H1 _]]; [assumption|]. apply TT_def with (T := T). exact H1.
-    + destruct (chk_pred_sound sg rho p args Hu Hc) as [s [H1 H2]]; [assumption|]. apply TT_pred with (s := s); assumption.
+    + destruct (chk_eq_sound sg rho a b Hu Hc) as [T [HA HB]]; try assumption. apply TT_eq with (T := T); assumption.
+    + destruct (chk_eq_sound sg rho x t Hu Hc) as [T [HA HB]]; try assumption. apply TT_defx with (T := T); assumption.
+    + destruct (chk_term_sound sg rho Hu t _ Hc) as [T [HA _]]; [assumption|]. apply TT_def with (T := T). exact HA.
+    + destruct (chk_pred_sound sg rho p args Hu Hc) as [s [HA HB]]; [assumption|]. apply TT_pred with (s := s); assumption.
 Qed.
 
 Lemma type_defects_nil sg rho st atoms :
@@ -145,4 +145,74 @@ Theorem type_defects_sound sg rho st atoms :
 Proof.
   intros Hu Hs Hc. apply type_defects_nil in Hc. rewrite Forall_forall in *.
   intros a Hin. apply chk_atom_sound; [exact Hu | apply Hs; exact Hin | apply Hc; exact Hin].
+Qed.
+
+(* ---------------------------------------------------------------- the checker is not too strict:
+   for a given environment, whatever is typable passes the check *)
+
+Scheme HasType_mind := Induction for HasType Sort Prop
+  with ArgsTyped_mind := Induction for ArgsTyped Sort Prop.
+Combined Scheme HasType_mutind from HasType_mind, ArgsTyped_mind.
+
+Lemma chk_here_ok sg rho t T exp :
+  tyof sg rho t = Some T -> (forall T', exp = Some T' -> T' = T) -> chk_here sg rho t exp = [].
+Proof.
+  intros Ht He. unfold chk_here. rewrite Ht. destruct exp as [T'|]; [|reflexivity].
+  rewrite (He T' eq_refl). rewrite N.eqb_refl. reflexivity.
+Qed.
+
+Lemma chk_complete sg rho : Unique sg ->
+  (forall t T, HasType sg rho t T ->
+     tyof sg rho t = Some T /\ forall exp, (forall T', exp = Some T' -> T' = T) -> chk_term sg rho t exp = []) /\
+  (forall ts Ts, ArgsTyped sg rho ts Ts -> chk_terms sg rho ts (map Some Ts) = []).
+Proof.
+  intros Hu. apply HasType_mutind.
+  - intros l x T Ha. split; [exact Ha|]. intros exp He. cbn [chk_term]. rewrite app_nil_r.
+    apply (chk_here_ok sg rho (Var l x) T); assumption.
+  - intros l f args s T Hd Hc Hargs IH.
+    assert (Hf : find_func sg f = Some s) by (apply declared_find_kind; assumption).
+    assert (Ht : tyof sg rho (App l f args) = Some T) by (cbn [tyof]; rewrite Hf; exact Hc).
+    split; [exact Ht|]. intros exp He. rewrite chk_term_app.
+    rewrite (chk_here_ok sg rho _ T exp Ht He). unfold func_dom. rewrite Hf. exact IH.
+  - reflexivity.
+  - intros t ts T Ts Ht [_ IHt] Hts IHts. cbn [map chk_terms].
+    rewrite IHt; [exact IHts|]. intros T' H. inversion H. reflexivity.
+Qed.
+
+Lemma chk_eq_complete sg rho a b T : Unique sg ->
+  HasType sg rho a T -> HasType sg rho b T -> chk_eq sg rho a b = [].
+Proof.
+  intros Hu Ha Hb. destruct (proj1 (chk_complete sg rho Hu) a T Ha) as [Hta Hca].
+  destruct (proj1 (chk_complete sg rho Hu) b T Hb) as [Htb Hcb].
+  unfold chk_eq. rewrite Hta, Htb.
+  rewrite Hca, Hcb; [reflexivity | |]; intros T' H; inversion H; reflexivity.
+Qed.
+
+Theorem chk_atom_complete sg rho a : Unique sg -> TyAtom sg rho a -> chk_atom sg rho a = [].
+Proof.
+  intros Hu H. destruct a as [l a | l a]; cbn [TyAtom] in H; inversion H; subst; cbn [chk_atom].
+  - apply (chk_eq_complete sg rho _ _ T); assumption.
+  - apply (proj1 (chk_complete sg rho Hu) _ T); [assumption | intros T' He; discriminate].
+  - unfold pred_dom, find_pred.
+    match goal with Hd : declared sg p [KPred] s |- _ => rewrite (declared_find_kind _ _ _ _ Hu Hd) end.
+    apply (proj2 (chk_complete sg rho Hu)). assumption.
+  - match goal with Hs : SymType sg ty |- _ => destruct Hs as [s0 Hd] end.
+    unfold type_exp, find_type. rewrite (declared_find_kind _ _ _ _ Hu Hd).
+    apply (proj1 (chk_complete sg rho Hu) _ ty); [assumption | intros T' He; inversion He; reflexivity].
+  - apply (chk_eq_complete sg rho _ _ T); assumption.
+  - apply (proj1 (chk_complete sg rho Hu) _ T); [assumption | intros T' He; discriminate].
+  - apply (chk_eq_complete sg rho _ _ T); assumption.
+  - unfold pred_dom, find_pred.
+    match goal with Hd : declared sg p [KPred] s |- _ => rewrite (declared_find_kind _ _ _ _ Hu Hd) end.
+    apply (proj2 (chk_complete sg rho Hu)). assumption.
+Qed.
+
+(* for a given environment the type pass is exact *)
+Theorem type_defects_exact sg rho st atoms :
+  Unique sg -> Forall (SymAtom sg) atoms ->
+  (type_defects sg rho st atoms = [] <-> Forall (TyAtom sg rho) atoms).
+Proof.
+  intros Hu Hs. split; [apply type_defects_sound; assumption|].
+  intros H. apply type_defects_nil. rewrite Forall_forall in *. intros a Hin.
+  apply chk_atom_complete; [exact Hu | apply H; exact Hin].
 Qed.
